@@ -157,10 +157,10 @@ func genCuts(rng *Rng, n int) string {
 }
 
 // genServeCases emits `serve` cases: streams of 1..k requests, well-formed or perturbed.
-func genServeCases(rng *Rng, n int, maxReq int, bigBodies bool) {
+func genServeCases(rng *Rng, n int, maxReq int, bigBodies bool, wfPct int) {
 	for i := 0; i < n; i++ {
 		k := 1 + rng.Intn(maxReq)
-		wf := rng.Intn(3) != 0
+		wf := rng.Intn(100) < wfPct
 		var stream []byte
 		idx := 8
 		if bigBodies && rng.Intn(4) == 0 {
@@ -196,6 +196,66 @@ func genServeCases(rng *Rng, n int, maxReq int, bigBodies bool) {
 	}
 }
 
+// genSegCases: the same stream under every two-way split, byte-wise delivery and random k-way splits.
+func genSegCases(rng *Rng, nStreams int, maxLen int) {
+	for i := 0; i < nStreams; i++ {
+		k := 1 + rng.Intn(3)
+		wf := rng.Intn(100) < 70
+		var stream []byte
+		for j := 0; j < k; j++ {
+			stream = append(stream, genRequest(rng, genReqOpts{wellFormed: wf, maxBodyIdx: 5, forceClose: false})...)
+		}
+		if !wf && rng.Bool() {
+			stream = mutate(rng, stream)
+		}
+		if len(stream) > maxLen {
+			stream = stream[:maxLen]
+		}
+		flags, end := "-", "eof"
+		if rng.Intn(8) == 0 {
+			end = "stall"
+		}
+		h := hx(stream)
+		runOp([]string{"serve", flags, "0", end, h, "-"})
+		for c := 1; c < len(stream); c++ {
+			runOp([]string{"serve", flags, "0", end, h, strconv.Itoa(c)})
+		}
+		var all []string
+		for c := 1; c < len(stream); c++ {
+			all = append(all, strconv.Itoa(c))
+		}
+		if len(all) > 0 {
+			runOp([]string{"serve", flags, "0", end, h, strings.Join(all, ",")})
+		}
+		for r := 0; r < 4; r++ {
+			runOp([]string{"serve", flags, "0", end, h, genCuts(rng, len(stream))})
+		}
+	}
+}
+
 func init() {
-	props["H1SERVE"] = func(tier string, rng *Rng) { n := 3000; if tier == "thorough" { n = 40000 }; genServeCases(rng, n, 5, true) }
+	props["C01"] = func(tier string, rng *Rng) {
+		n := 2500
+		if tier == "thorough" {
+			n = 150000
+		}
+		genServeCases(rng, n, 6, true, 85)
+		genReqHeads(rng, n*4)
+	}
+	props["C02"] = func(tier string, rng *Rng) {
+		n := 250
+		if tier == "thorough" {
+			n = 6000
+		}
+		genSegCases(rng, n, 420)
+		genServeCases(rng, n*10, 4, true, 60)
+	}
+	props["C03"] = func(tier string, rng *Rng) {
+		n := 2500
+		if tier == "thorough" {
+			n = 150000
+		}
+		genServeCases(rng, n, 4, true, 15)
+		genReqHeads(rng, n*8)
+	}
 }
